@@ -8,7 +8,7 @@ from ..engine import Outcome, Verdict, crash_verdicts, infra_problem
 ID = "C06"
 RULE = ("case = control script (wind depth <= 4, <= 3 captured continuations each re-entered 0-2 times from inside or outside their extent, "
         "2-3 generator coroutines that yield from inside winds and are resumed in tape order, parameterize, with-exception-handler with "
-        "returning and escaping handlers, guard, raise and raise-continuable at tape-chosen points) rendered to Scheme and interpreted by an "
+        "returning and escaping handlers, guard with matching and with non-matching clauses (re-raise in the raise's dynamic environment), raise and raise-continuable at tape-chosen points) rendered to Scheme and interpreted by an "
         "executable wind model (CPS interpreter with explicit dynamic state) x world (collection points, slice lengths with the script "
         "running in one or two green threads, small-stack variant so re-entry must grow the stack). The chibi trace must equal the model's. "
         "Non-trivial: the model's trace shows at least one re-entry or escape across a wind (an 'in'/'out' marker repeated) or a handler "
@@ -74,11 +74,14 @@ class Gen:
         self.budget -= 1
         choices = [("note", 4), ("notep", 2)]
         if depth < 4:
-            choices += [("wind", 4), ("param", 2), ("capture", 3), ("handler-ret", 2), ("handler-esc", 2), ("guard", 2)]
+            choices += [("wind", 4), ("param", 2), ("capture", 3), ("handler-ret", 2), ("handler-esc", 2), ("guard", 2), ("guard-pass", 2)]
         choices += [("invoke", 3)]
-        if hstack:
+        # a guard none of whose clauses matches is transparent: the condition is re-raised (raise-continuable) in the dynamic
+        # environment of the original raise, to the guard's outer handler
+        eff = [h for h in hstack if h != "pass"]
+        if eff:
             choices += [("raise-c", 3)]
-            if hstack[-1] in ("esc", "guard"):
+            if eff[-1] in ("esc", "guard"):
                 choices += [("raise", 2)]
         if in_gen is not None:
             choices += [("yield", 4)]
@@ -138,6 +141,13 @@ class Gen:
             t = self.fresh("g")
             return [S("note"), [S("list"), q(t + "-res"),
                                 [S("guard"), [S("e"), [True, [S("list"), q(t), S("e")]]]] + self.stmts(depth + 1, hstack + ["guard"], in_gen)]]
+        if c == "guard-pass":
+            t = self.fresh("gp")
+            clauses = [[[S("eq?"), S("e"), q("never-" + t)], q("no")]]
+            if r.chance(1, 3):
+                clauses.append([[S("pair?"), [S("list")]], q("no2")])
+            return [S("note"), [S("list"), q(t + "-res"),
+                                [S("guard"), [S("e")] + clauses] + self.stmts(depth + 1, hstack + ["pass"], in_gen)]]
         if c == "raise-c":
             return [S("note"), [S("list"), q(self.fresh("rc")), [S("raise-continuable"), self.value()]]]
         if c == "raise":
@@ -154,9 +164,10 @@ class Gen:
     def thunk_action(self, hstack):
         r = self.rng
         choices = [("invoke", 4), ("note", 1)]
-        if hstack:
+        eff = [h for h in hstack if h != "pass"]
+        if eff:
             choices += [("raise-c", 2)]
-            if hstack[-1] in ("esc", "guard"):
+            if eff[-1] in ("esc", "guard"):
                 choices += [("raise", 4)]
         c = r.weighted(choices)
         if c == "invoke":
